@@ -4,6 +4,7 @@ import (
 	"fmt"
 	"math/big"
 	"os"
+	"strings"
 
 	"github.com/dominant-strategies/go-quai/common"
 	"github.com/dominant-strategies/go-quai/consensus/misc"
@@ -26,6 +27,7 @@ type EnvSpec struct {
 	PTStored      bool   `json:"pt_stored"`
 	PPT           *HSpec `json:"ppt,omitempty"` // prime parent of the terminus (nil: fetchPrimeBlock finds nothing)
 	DefGenesisPar bool   `json:"def_genesis_parent,omitempty"`
+	Anc           []HSpec `json:"anc,omitempty"` // further stored ancestors (oldest first) below the parent's parent
 }
 
 // scenario rebuilt from specs: everything literal, so a replay reproduces the same hashes
@@ -97,10 +99,14 @@ func buildScenarioPP(e *EnvSpec, ps HSpec) *scenario {
 		sc.ppt = build(*e.PPT)
 		ch.prime[sc.ppt.Hash()] = sc.ppt
 	}
+	for _, a := range e.Anc {
+		ch.add(a, true)
+	}
 	reg := func(s HSpec, store bool) *types.WorkObject {
 		wo := build(s)
 		withPrimeParent(wo, e)
 		ch.setPow(wo, z0(s.Pow))
+		ch.setSharePows(s)
 		if s.Genesis {
 			ch.markGenesis(wo)
 		}
@@ -179,24 +185,36 @@ func (c *ctxT) runVerify(cs Case) string {
 		if co.kind == "ok" && co.order == common.ZONE_CTX && tc.Cmp(tp) <= 0 {
 			c.rep.Fail("entropy:not-increasing", "TotalLogEntropy(child) <= TotalLogEntropy(parent) on an accepted zone-order child", cs)
 		}
-		if child.NumberU64(common.ZONE_CTX) != expectedNum(sc, ps)+0 {
-			c.rep.Fail("verifyHeader:number", "accepted child number is not parent+1", cs)
+		if child.Number(common.ZONE_CTX).Cmp(expectedNum(ps)) != 0 {
+			c.rep.Fail("verifyHeader:number", "accepted child number is not parent+1 (compared as unbounded integers)", cs)
+		}
+		if child.PrimeTerminusNumber().Cmp(expectedPTNum(po, ps)) != 0 {
+			c.rep.Fail("verifyHeader:terminus-number", "accepted child's prime terminus number is not the expected one (unbounded integers)", cs)
 		}
 		if child.Time() < sc.p.Time() || child.Time() > e.Now+uint64(core.VerifC09AllowedFutureBlockTimeSeconds()) {
 			c.rep.Fail("verifyHeader:time", "accepted child violates the time rules", cs)
 		}
 	}
+	term := fmt.Sprintf("CVerify %s %s %s %s", envCoq(e, ps), coqHeader(sc.ch, sc.p, ps), coqHeader(sc.ch, child, csp), hlib.CoqBool(ok))
+	c.verifyHistory(cs, sc, child, ok)
 	if len(cs.Dev) > 1 && cs.Dev[:2] == "x:" {
 		return "" // deviation of a rule outside the model: monitor only
 	}
-	return fmt.Sprintf("CVerify %s %s %s %s", envCoq(e, ps), coqHeader(sc.ch, sc.p, ps), coqHeader(sc.ch, child, csp), hlib.CoqBool(ok))
+	return term
 }
 
-func expectedNum(sc *scenario, ps HSpec) uint64 {
+func expectedNum(ps HSpec) *big.Int {
 	if ps.Genesis {
-		return 1
+		return big.NewInt(1)
 	}
-	return ps.Num + 1
+	return new(big.Int).Add(ps.numBig(), big.NewInt(1))
+}
+
+func expectedPTNum(po coRes, ps HSpec) *big.Int {
+	if (po.kind == "ok" && po.order == common.PRIME_CTX) || ps.Genesis {
+		return ps.numPrimeBig()
+	}
+	return ps.ptNumBig()
 }
 
 // fabricateChild computes, with the real helper functions, the child a miner would build on sc.p.
@@ -215,9 +233,12 @@ func fabricateChild(c *ctxT, sc *scenario, e *EnvSpec, ps HSpec, zoneOrder bool)
 			ok = false
 			return
 		}
-		ch.Num = ps.Num + 1
+		ch.Num, ch.NumX = ps.Num+1, ps.NumX
+		if ps.Num == ^uint64(0) { // carry into the wide part
+			ch.Num, ch.NumX = 0, new(big.Int).Add(z0(ps.NumX), two64).String()
+		}
 		if ps.Genesis {
-			ch.Num = 1
+			ch.Num, ch.NumX = 1, ""
 		}
 		ch.Time = ps.Time + uint64(c.rng.Intn(12))
 		d := hc.CalcDifficulty(sc.p.WorkObjectHeader(), sc.p.ExpansionNumber())
@@ -254,9 +275,9 @@ func fabricateChild(c *ctxT, sc *scenario, e *EnvSpec, ps HSpec, zoneOrder bool)
 		}
 		ch.BaseFee = bf.String()
 		if po.order == common.PRIME_CTX || ps.Genesis {
-			ch.PTHash, ch.PTNum = sc.p.Hash().Hex(), ps.NumPrime
+			ch.PTHash, ch.PTNum, ch.PTNumX = sc.p.Hash().Hex(), ps.NumPrime, ps.NumPrimeX
 		} else {
-			ch.PTHash, ch.PTNum = sc.p.PrimeTerminusHash().Hex(), ps.PTNum
+			ch.PTHash, ch.PTNum, ch.PTNumX = sc.p.PrimeTerminusHash().Hex(), ps.PTNum, ps.PTNumX
 		}
 		ch.Parent = sc.p.Hash().Hex()
 		ch.Nonce = c.rng.Next()
@@ -392,6 +413,40 @@ func genPair(c *ctxT, shape int) (*pairGen, bool) {
 		} else {
 			e.PPT = nil
 		}
+	case 5: // a parent that carries work shares (before the fork): its accumulated entropy has a work-share term
+		ps.Pow = powFor(c, target, c.rng.Chance(85)).String()
+		if ps.Num < 8 {
+			ps.Num += 8
+			e.GP.Num = ps.Num - 1
+		}
+		anc := genAncestry(c, ps.Num-2, ptime, ps.Diff) // a0 a1 x a2 ; the parent's parent (e.GP) sits on a2
+		e.GP.Parent = build(anc[3]).Hash().Hex()
+		e.Anc = anc
+		// genShares expects [great-grand parent, grand parent, side block, parent]: the window one block up; the side
+		// block x hangs on a0, which is outside the inclusion depth of this block, so a2 takes its place
+		win := []HSpec{anc[1], anc[3], anc[3], e.GP}
+		ps.Parent = build(e.GP).Hash().Hex()
+		ps.Shares = genShares(c, win, ps.Diff, ptime)
+	case 6: // numbers wider than 64 bits (the wire format has no width limit): number, prime number, terminus number
+		ps.Pow = powFor(c, target, c.rng.Chance(80)).String()
+		wide := func() string {
+			k := []*big.Int{big.NewInt(1), big.NewInt(3), two64, pow2(192)}[c.rng.Intn(4)]
+			return new(big.Int).Mul(k, two64).String()
+		}
+		ps.NumX = wide()
+		if c.rng.Bool() {
+			ps.NumPrimeX = wide()
+		}
+		if c.rng.Bool() {
+			ps.PTNumX = wide()
+		}
+		switch c.rng.Intn(6) {
+		case 0:
+			ps.Num = ^uint64(0) // the child's number carries into the wide part
+		case 1:
+			ps.Num = 0 // the low 64 bits are zero: CalcOrder's NumberU64()==0 shortcut
+		}
+		e.GP.Num = ps.Num - 1
 	}
 	ps.PTHash = func() string { w := build(e.PT); withPrimeParent(w, &e); return w.Hash().Hex() }()
 	if e.GPKind != 0 {
@@ -534,12 +589,96 @@ func deviations() []deviation {
 		{"number+1", func(ch *HSpec, e *EnvSpec, ps HSpec) bool { ch.Num++; return true }},
 		{"number=parent's", func(ch *HSpec, e *EnvSpec, ps HSpec) bool { ch.Num--; return true }},
 		{"number=0", func(ch *HSpec, e *EnvSpec, ps HSpec) bool { ch.Num = 0; return true }},
+		// the parent's work-share entropy claimed once more (what a memo corrupted by an in-place addition would expect)
+		{"parent-entropy+parent-ws", func(ch *HSpec, e *EnvSpec, ps HSpec) bool { return inflate(ch, ps, true, false) }},
+		{"parent-delta+parent-ws", func(ch *HSpec, e *EnvSpec, ps HSpec) bool { return inflate(ch, ps, false, true) }},
+		{"parent-entropy+delta+parent-ws", func(ch *HSpec, e *EnvSpec, ps HSpec) bool { return inflate(ch, ps, true, true) }},
+		{"time=max-uint64", func(ch *HSpec, e *EnvSpec, ps HSpec) bool { ch.Time = ^uint64(0); return true }},
+		{"gaslimit+2^63", func(ch *HSpec, e *EnvSpec, ps HSpec) bool { ch.GasLimit += 1 << 63; return true }},
+		{"statelimit+2^63", func(ch *HSpec, e *EnvSpec, ps HSpec) bool { ch.StateLimit += 1 << 63; return true }},
 		// rules outside the model: monitor only
 		{"x:extra-too-long", func(ch *HSpec, e *EnvSpec, ps HSpec) bool { ch.Extra = int(params.MaximumExtraDataSize) + 1; return true }},
 		{"x:headerhash", func(ch *HSpec, e *EnvSpec, ps HSpec) bool { return true }},
 		{"x:location", func(ch *HSpec, e *EnvSpec, ps HSpec) bool { return true }},
 		{"x:data", func(ch *HSpec, e *EnvSpec, ps HSpec) bool { return true }},
 	}
+}
+
+// inflate adds the parent's work-share entropy to the recorded parent entropy and/or delta of the child
+func inflate(ch *HSpec, ps HSpec, pe, pd bool) bool {
+	if ps.wsHint == "" || z0(ps.wsHint).Sign() <= 0 {
+		return false
+	}
+	if pe {
+		ch.PE[2] = new(big.Int).Add(z0(ch.PE[2]), z0(ps.wsHint)).String()
+	}
+	if pd {
+		if z0(ch.PD[2]).Sign() == 0 {
+			return pe // after a dominant parent the delta restarts at zero: only the entropy can be inflated
+		}
+		ch.PD[2] = new(big.Int).Add(z0(ch.PD[2]), z0(ps.wsHint)).String()
+	}
+	return true
+}
+
+// wideDeviations: for EVERY integer field of the child that is a *big.Int on the wire (number, prime terminus number,
+// difficulty, parent entropy / delta / uncled delta, base fee) the value moved by 2^64, 2^128, 2^256 and reduced modulo
+// 2^64 — a comparison on a truncated value (Uint64(), a 32-byte hash) accepts one of them.
+func wideDeviations() []deviation {
+	type acc struct {
+		name string
+		get  func(ch *HSpec) *big.Int
+		set  func(ch *HSpec, v *big.Int)
+	}
+	split := func(v *big.Int) (uint64, string) {
+		lo := new(big.Int).And(v, new(big.Int).Sub(two64, big.NewInt(1)))
+		hi := new(big.Int).Sub(v, lo)
+		if hi.Sign() == 0 {
+			return lo.Uint64(), ""
+		}
+		return lo.Uint64(), hi.String()
+	}
+	str := func(p func(ch *HSpec) *string) acc {
+		return acc{get: func(ch *HSpec) *big.Int { return z0(*p(ch)) }, set: func(ch *HSpec, v *big.Int) { *p(ch) = v.String() }}
+	}
+	named := func(n string, a acc) acc { a.name = n; return a }
+	fields := []acc{
+		{"number", func(ch *HSpec) *big.Int { return ch.numBig() }, func(ch *HSpec, v *big.Int) { ch.Num, ch.NumX = split(v) }},
+		{"terminus-number", func(ch *HSpec) *big.Int { return ch.ptNumBig() }, func(ch *HSpec, v *big.Int) { ch.PTNum, ch.PTNumX = split(v) }},
+		named("difficulty", str(func(ch *HSpec) *string { return &ch.Diff })),
+		named("parent-entropy", str(func(ch *HSpec) *string { return &ch.PE[2] })),
+		named("parent-delta", str(func(ch *HSpec) *string { return &ch.PD[2] })),
+		named("parent-uncled-delta", str(func(ch *HSpec) *string { return &ch.PUD[2] })),
+		named("basefee", str(func(ch *HSpec) *string { return &ch.BaseFee })),
+	}
+	var out []deviation
+	for _, f := range fields {
+		f := f
+		for _, k := range []int{64, 128, 256} {
+			k := k
+			out = append(out, deviation{fmt.Sprintf("%s+2^%d", f.name, k), func(ch *HSpec, e *EnvSpec, ps HSpec) bool {
+				f.set(ch, new(big.Int).Add(f.get(ch), pow2(k)))
+				return true
+			}})
+		}
+		out = append(out, deviation{f.name + "-2^64", func(ch *HSpec, e *EnvSpec, ps HSpec) bool {
+			v := f.get(ch)
+			if v.Cmp(two64) < 0 {
+				return false
+			}
+			f.set(ch, new(big.Int).Sub(v, two64))
+			return true
+		}})
+		out = append(out, deviation{f.name + "%2^64", func(ch *HSpec, e *EnvSpec, ps HSpec) bool {
+			v := f.get(ch)
+			if v.Cmp(pow2(65)) < 0 { // below 2^65 this is the -2^64 deviation (or none)
+				return false
+			}
+			f.set(ch, new(big.Int).And(v, new(big.Int).Sub(two64, big.NewInt(1))))
+			return true
+		}})
+	}
+	return out
 }
 
 // verifyCases: the valid pair plus k single-field deviations of it (all of them when k < 0)
@@ -551,7 +690,10 @@ func verifyCases(c *ctxT, shape int, k int) []Case {
 	}
 	out := []Case{{ID: c.next(), Kind: "verify", Env: cloneEnv(&pg.env), H: []HSpec{pg.parent, pg.child}},
 		{ID: c.next(), Kind: "expansion", Env: cloneEnv(&pg.env), H: []HSpec{pg.parent}}}
-	devs := deviations()
+	devs := append(deviations(), wideDeviations()...)
+	if w, err := pg.sc.ch.hc.WorkShareLogEntropy(pg.sc.p); err == nil {
+		pg.parent.wsHint = w.String()
+	}
 	idx := make([]int, len(devs))
 	for i := range idx {
 		idx[i] = i
@@ -562,7 +704,14 @@ func verifyCases(c *ctxT, shape int, k int) []Case {
 			idx[i], idx[j] = idx[j], idx[i]
 		}
 		if k < len(idx) {
+			rest := idx[k:]
 			idx = idx[:k]
+			// the work-share inflations are always part of the sample when the parent carries work-share entropy
+			for _, i := range rest {
+				if strings.HasSuffix(devs[i].name, "+parent-ws") {
+					idx = append(idx, i)
+				}
+			}
 		}
 	}
 	for _, i := range idx {
@@ -571,7 +720,8 @@ func verifyCases(c *ctxT, shape int, k int) []Case {
 		if !devs[i].apply(&ch, e, pg.parent) {
 			continue
 		}
-		out = append(out, Case{ID: c.next(), Kind: "verify", Env: e, H: []HSpec{pg.parent, ch}, Dev: devs[i].name})
+		// H[2] = the honest sibling: verified in between when the verdict is replayed over a history
+		out = append(out, Case{ID: c.next(), Kind: "verify", Env: e, H: []HSpec{pg.parent, ch, pg.child}, Dev: devs[i].name})
 	}
 	return out
 }
@@ -599,9 +749,15 @@ func (c *ctxT) runChain(cs Case) {
 	parentSpec, childSpec := pg.parent, pg.child
 	prevTotal := sc.ch.hc.TotalLogEntropy(sc.p)
 	links := 0
+	// work shares (from the fourth link on, own PRNG: the first links stay the chain of the non-vacuity example in
+	// Props/C09.v): mined on the parent, grand parent or great-grand parent of the block that includes them
+	r2 := hlib.NewRng(bi(cs.Z[1]).Uint64() ^ 0x5bd1e995).Fork()
+	stored := []*types.WorkObject{sc.gp, sc.p}
+	wsLinks := 0
 	for i := 0; i < length; i++ {
 		child := build(childSpec)
 		sc.ch.setPow(child, z0(childSpec.Pow))
+		sc.ch.setSharePows(childSpec)
 		e.Now = childSpec.Time + uint64(r.rng.Intn(10))
 		okv, pan := verify(sc, child, e.Now)
 		if pan || !okv {
@@ -621,7 +777,14 @@ func (c *ctxT) runChain(cs Case) {
 				c.rep.Fail("entropy:not-increasing", fmt.Sprintf("accumulated entropy does not increase at link %d of an accepted chain", i), cs)
 				return
 			}
-			ws, _ := sc.ch.hc.WorkShareLogEntropy(child)
+			ws, wserr := sc.ch.hc.WorkShareLogEntropy(child)
+			if wserr != nil {
+				c.rep.Fail("harness-panic:chain-shares", "the fabricated work shares of a chain block are not accepted by WorkShareLogEntropy: "+wserr.Error(), cs)
+				return
+			}
+			if ws.Sign() > 0 {
+				wsLinks++
+			}
 			step := new(big.Int).Sub(total, prevTotal)
 			want := new(big.Int).Add(common.IntrinsicLogEntropy(common.BytesToHash(z0(childSpec.Pow).Bytes())), ws)
 			if step.Cmp(want) != 0 {
@@ -630,7 +793,21 @@ func (c *ctxT) runChain(cs Case) {
 			}
 		}
 		links++
+		// the verdict and the totals of an accepted link do not change when they are looked at again (warm memo)
+		if okv2, pan2 := verify(sc, child, e.Now); pan2 || !okv2 {
+			c.rep.Fail("chain:reverify-rejected", fmt.Sprintf("link %d, accepted a moment ago, is rejected when verified again", i), cs)
+			return
+		}
+		if t2 := sc.ch.hc.TotalLogEntropy(child); t2.Cmp(total) != 0 {
+			c.rep.Fail("hist:unstable:total", fmt.Sprintf("TotalLogEntropy of link %d changed between two looks", i), cs)
+			return
+		}
+		if t3 := sc.ch.hc.TotalLogEntropy(sc.p); t3.Cmp(prevTotal) != 0 {
+			c.rep.Fail("hist:unstable:total", fmt.Sprintf("TotalLogEntropy of the parent of link %d changed after its child was verified", i), cs)
+			return
+		}
 		// the child becomes the parent: store it, move the window
+		stored = append(stored, child)
 		sc.ch.put(child)
 		sc.gp, sc.p = sc.p, child
 		e.GPKind, e.GP = 2, parentSpec
@@ -640,9 +817,25 @@ func (c *ctxT) runChain(cs Case) {
 		if !ok2 {
 			break
 		}
+		if i+1 >= 3 && r2.Chance(60) {
+			target := new(big.Int).Div(two256, z0(next.Diff))
+			for k, n := 0, 1+r2.Intn(3); k < n; k++ {
+				on := stored[len(stored)-1-r2.Intn(3)]
+				if on == nil {
+					continue
+				}
+				pow := new(big.Int).Mul(target, big.NewInt(int64(2+r2.Intn(30))))
+				if r2.Chance(20) {
+					pow = new(big.Int).Sub(target, big.NewInt(int64(1+r2.Intn(1000))))
+				}
+				next.Shares = append(next.Shares, ShareSpec{Parent: on.Hash().Hex(), Num: on.NumberU64(common.ZONE_CTX) + 1, Time: next.Time, Diff: next.Diff,
+					Nonce: uint64(1000*i + k), Pow: pow.String()})
+			}
+		}
 		childSpec = next
 	}
 	c.rep.Count(fmt.Sprintf("chain:links<=%d", bucket(links)))
+	c.rep.Count(fmt.Sprintf("chain:ws-links<=%d", bucket(wsLinks)))
 	if links > 1 {
 		c.rep.Nontrivial(fmt.Sprintf("chain:%d", links))
 	}
